@@ -17,11 +17,22 @@ PROP = dict(
           "read; every value must come back with the identical bit pattern (memcmp semantics, so NaN payloads count; arrays element by element, "
           "strings with read(n)), nothing may be left over, the socket must not be in an error state. Plus a deterministic grid: every type x every "
           "order x 12 byte-distinct patterns x array lengths 0,1,2,3,100 with an order switch between two copies of the same array. "
-          "Non-trivial: the sequence contains a non-empty array of a multi-byte type, or an effective order switch, or NATIVE order. Distinct = "
-          "distinct FNV-1a hash of the serialised case."),
+          "The source Array objects of a sequence are created once, live until the case ends and are shared by the three sinks; an 'ra' item writes the "
+          "SAME Array object again later (in the order then in force, also after a switch), and after every << the argument (Array, String, "
+          "ByteArray, C string) must still equal the model: writing does not change what was written. Delivery in pieces: in one sequence of eight, "
+          "and in a dedicated part of short sequences of multi-byte scalars and small arrays (socket sink only), everything is additionally read back "
+          "from a Socket whose peer (a feeder thread) sends the reference bytes cut at 1..5 generated places - inside a value or an array element, on "
+          "a value boundary, with one or several following values in the next piece; after each piece the feeder waits until the reader has drained "
+          "the socket (so a cut inside a value leaves the reader in a read that needs another recv) plus 0..500 us, then sends the next piece, and "
+          "finally shuts its side down; timing only decides which path of the reader is taken, the oracle is values read == reference, no error "
+          "state, nothing left. The grid also writes five of its arrays again in the next order and two in the first one. "
+          "Non-trivial: the sequence contains a non-empty array of a multi-byte type, or an effective order switch, or NATIVE order, or a multi-byte "
+          "array written again, or a cut inside a value whose next piece holds more than the rest of that value. Distinct = distinct FNV-1a hash of "
+          "the serialised case."),
     assumptions=["the reference serializer (shifts of the unsigned bit pattern; NATIVE decided by inspecting the bytes of uint16_t 1) is right",
                  "bool values are true/false only (a bool object holding another bit pattern is not a value)",
                  "reading is checked on the reference bytes, writing against the reference bytes, so a compensating error in writer and reader cannot cancel",
-                 "a socketpair delivers bytes in order and completely; items are at most 800 bytes, far below the socket buffer",
+                 "a socketpair delivers bytes in order and completely; items are at most 800 bytes, far below the socket buffer; a read() on it returns what is "
+                 "queued (at most what was asked for), so a value cut by the feeder is completed by a second recv",
                  "AddressSanitizer reports reads past the exact-size blocks holding C strings and reader input"],
 )
